@@ -25,7 +25,7 @@ from ..corpus import b64, unb64
 
 PROP = "C14"
 LEVEL = "exploration"
-COUNTS = {"quick": 420, "thorough": 9000}
+COUNTS = {"quick": 1000, "thorough": 20000}
 WALL = {"quick": 170, "thorough": 3300}
 RULE = (
     "scenario = seeded history of 1-3 CLI scan/fix operations over 1-4 pool documents (edge documents preferred: empty, one line, "
